@@ -447,7 +447,7 @@ class C17(Prop):
 
     # ---- random ----------------------------------------------------------
     def n_random(self, tier):
-        return 5600 if tier == "quick" else 120000
+        return 5600 if tier == "quick" else 50000
 
     def strategy(self, tier):
         class Draw:
